@@ -1,5 +1,5 @@
 SPECIFICATION Spec
 CONSTANTS
-  Draws = 4
-  PlsDraws = 4
+  Draws = 8
+  PlsDraws = 8
 INVARIANT SpecOK
